@@ -484,7 +484,7 @@ theorem tinv_pushTask {s s' : State} {t k : Nat} {target : Option Nat} {a : Loca
 theorem tinv_relWorker {cfg : Cfg} {s s' : State} {t : Nat} {w : WKind} {reg to : Bool} {target : Option Nat} {dl : Bool}
     (h : TInv s) (hg : s.threads[t]? = some (.wInP w reg to))
     (hn : relWorker cfg s t w reg to target dl = some s') : TInv s' := by
-  unfold relWorker at hn
+  unfold relWorker relWorkerBody at hn
   have e0 : E s.threads t = none := by rw [E_of_get hg]; rfl
   cases reg
   · cases to <;> cases hq : s.queue <;> cases hps : s.pShutting <;> cases w <;> cases dl <;> cases hfx : cfg.fixed <;>
